@@ -27,10 +27,7 @@
 //!
 //! Numbers
 //! -------
-//! `(num f<16 hex>)` carries `NumberExpression::compute_value().to_bits()`. (For a hex literal
-//! with a binary exponent whose `integer * 2^exponent` overflows u64, `compute_value` panics
-//! in builds with overflow checks; the wrapping product — what a release build computes — is
-//! used instead.) Reverse: ALWAYS `DecimalNumber::new(f64::from_bits(bits))`, one literal
+//! `(num f<16 hex>)` carries `NumberExpression::compute_value().to_bits()`. Reverse: ALWAYS `DecimalNumber::new(f64::from_bits(bits))`, one literal
 //! node, for every bit pattern, so that `compute_value().to_bits()` is exactly the wire value
 //! (including negative numbers, -0.0, infinities and NaN payloads). Note that this is NOT
 //! `Expression::from(f64)`, which builds `-x`, `1/0`, `0/0` trees and attaches exponents.
@@ -264,13 +261,6 @@ pub fn type_to_sexp(ty: &Type) -> String {
 
 /// The f64 darklua computes for a number literal (see the module documentation).
 pub fn number_value(number: &NumberExpression) -> f64 {
-    if let NumberExpression::Hex(hex) = number {
-        if let Some(exponent) = hex.get_exponent() {
-            return hex
-                .get_raw_integer()
-                .wrapping_mul(2_u64.wrapping_pow(exponent)) as f64;
-        }
-    }
     number.compute_value()
 }
 
